@@ -233,6 +233,49 @@ func c15ReserveHelper(c *engine.Ctx, rule, key string, f *ssa.Function, ci engin
 	}
 }
 
+// c15ReserveEval: finite-domain evaluation of the reserve-then-build function.  With size > 0 the build step must
+// not run on any path where the select ended in a case other than the granted reservation, and must not run before
+// the select.
+func c15ReserveEval(f *ssa.Function, size *ssa.Parameter, sel *ssa.Select, allocIdx int, build ssa.Instruction) bool {
+	ok := true
+	nStates := len(sel.States)
+	if !sel.Blocking {
+		nStates++ // default case = index -1
+	}
+	for chosen := -1; chosen < len(sel.States); chosen++ {
+		if chosen == -1 && sel.Blocking {
+			continue
+		}
+		ev := &engine.Evaluator{MaxVisits: 2}
+		ev.Input = func(v ssa.Value) (engine.EVal, bool) {
+			if v == ssa.Value(size) {
+				return engine.EVal{K: engine.EInt, I: 5}, true
+			}
+			if ex, isEx := v.(*ssa.Extract); isEx && ex.Tuple == ssa.Value(sel) && ex.Index == 0 {
+				return engine.EVal{K: engine.EInt, I: int64(chosen)}, true
+			}
+			return engine.EVal{}, false
+		}
+		ev.Observe = func(in ssa.Instruction, get func(ssa.Value) engine.EVal) {
+			if in != build {
+				return
+			}
+			if get(sel).K != engine.EPtr { // the select has not run on this path
+				ok = false
+			}
+			if chosen != allocIdx {
+				ok = false
+			}
+		}
+		ev.Run(f)
+		if ev.Aborted {
+			ok = false
+		}
+	}
+	_ = nStates
+	return ok
+}
+
 func c15Reserve(c *engine.Ctx, rule string, m *mqFacts) {
 	n := 0
 	for _, f := range m.fns {
@@ -343,6 +386,9 @@ func c15Reserve(c *engine.Ctx, rule string, m *mqFacts) {
 			pf := c.P.Field("messagequeue", "MessageQueue", "p")
 			if bad == "" && !isLoadOfField(ci.Common.Args[0], pf) {
 				bad = "the reservation is not made for the queue's own peer"
+			}
+			if bad != "" && bad != "the reservation is not made for the queue's own peer" && c15ReserveEval(f, size, sel, allocIdx, build) {
+				bad = "" // decided by evaluation: the outcome of the select travels in a flag
 			}
 			c.Decide(rule, key, ci.Instr.Pos(), bad == "", "size > 0 => build step only after <-AllocateBlockMemory(mq.p, size); cancel case returns", bad)
 		}
